@@ -157,6 +157,23 @@ CHECKS = {
          'signatures vs what apply_simplify_repl passes, None-guards on the legacy nodeargs view.'),
    note='Bounded running time and third-party simplify_repl callables are not decided.',
    technique='exception-escape dataflow + crash-construct lints + node-kind typestate inference + evaluated default tables'),
+ 'C03': dict(level='other', design='DESIGN.md section 5, C03',
+   text=('Thin, structural: the whitespace-policy presets are evaluated and compared with the documented semantics; '
+         'every policy key read exists in every preset; node_to_text dispatches every concrete node class to its own '
+         'renderer; the equation policy is scoped (with-item only, restored on exit); formatting macros are transparent in '
+         'both default tables; math content is the stripped body rendered inside the equation context; accents use NFC; '
+         'bare-macro post-space and whitespace-only-node rules have the documented polarity; specials table values.'),
+   note='No rendered string is computed: whitespace ownership between constructs and the compositional equality of the property are run-time statements and are not decided.',
+   technique='evaluation of literal policy tables against a documented oracle + AST guard-fact/shape rules on the rendering functions + table evaluation'),
+ 'C08': dict(level='other', design='DESIGN.md section 5, C08',
+   text=('Table inverse: an abstract decoder over the evaluated default walker and latex2text tables (control words/symbols, '
+         'groups, single-token arguments, %s replacements, accents with NFC, math alphabets, specials) is applied to every '
+         'entry of the default encoder table; 1236 of 1512 entries decode to their own character, the others are a frozen '
+         'reviewed list; any entry leaving the invertible set is reported. Sibling agreement of the two dangling-control-word '
+         'tests (and letter-case completeness of a regex used there) and the argument count of accent macros are decided '
+         'structurally.'),
+   note='Neighbour effects between a replacement and adjacent characters under the protection schemes/whitespace policies are run-time string interactions and are not decided; the decoder is a model of latex2text restricted to table-driven constructs.',
+   technique='abstract evaluation of the declarative encode/decode tables (no repository code is run) + sibling-implementation cross-check'),
 }
 
 NOT_YET = {}
